@@ -1,24 +1,58 @@
-(* C34 — helpers used by the generated case files: a case is the local node,
-   a node population, and an operation list that refers to nodes by index;
-   the result is the projection compared with the implementation. *)
+(* C34 — helpers used by the generated case files.
+
+   A case file first defines [pools]: per local node k, groups of distance
+   hashes (group 0 = the local node's own hash), each hash written as one
+   hexadecimal number.  A case is then: the local node's pool k, a population
+   of nodes given as (id label, group, index in group) — labels stand for node
+   ids, of which the model uses equality only; label 0 is the local id — and an
+   operation list referring to the population by position.  The result is the
+   projection compared with the implementation: recorded count, the non-empty
+   buckets as (index, entry labels in order, replacement labels in order), and
+   per operation the contested node (add) or the flag (bump, as 1/0). *)
 From Coq Require Import List ZArith NArith Bool PeanoNat.
 From Verif Require Import Outcome Cmp.
 From C34 Require Import Model.
 Import ListNotations.
 
-Inductive iop :=
-| IAdd (i : nat)
-| IStuff (l : list nat)
-| IDelete (i : nat)
-| IDeleteReplace (i : nat)
-| IBump (i : nat)
-| IDelRepl (i : nat).
+(* ---- 32 big-endian bytes of a number -------------------------------------- *)
+Fixpoint pos_bits (p : positive) : list bool :=   (* least significant first *)
+  match p with
+  | xH => [true]
+  | xO q => false :: pos_bits q
+  | xI q => true :: pos_bits q
+  end.
+Definition N_bits (x : N) : list bool := match x with N0 => [] | Npos p => pos_bits p end.
+Fixpoint byte_of (bits : list bool) : N :=
+  match bits with
+  | [] => 0
+  | b :: r => ((if b then 1 else 0) + 2 * byte_of r)%N
+  end.
+Fixpoint bytes_le (k : nat) (bits : list bool) : list N :=
+  match k with
+  | O => []
+  | S k' => byte_of (firstn 8 bits) :: bytes_le k' (skipn 8 bits)
+  end.
+Definition hash_of_N (x : N) : list N := rev (bytes_le 32 (N_bits x)).
 
-Fixpoint resolve_list (nodes : list node) (l : list nat) : option (list node) :=
+Definition pool := list (list (list (list N))).   (* local node -> group -> index -> hash bytes *)
+Definition mkpools (l : list (list (list N))) : pool := map (map (map hash_of_N)) l.
+
+Definition nthN {A} (l : list A) (i : N) : option A := nth_error l (N.to_nat i).
+
+(* ---- operations by position ----------------------------------------------- *)
+Inductive iop :=
+| IAdd (i : N)
+| IStuff (l : list N)
+| IDelete (i : N)
+| IDeleteReplace (i : N)
+| IBump (i : N)
+| IDelRepl (i : N).
+
+Fixpoint resolve_list (nodes : list node) (l : list N) : option (list node) :=
   match l with
   | [] => Some []
   | i :: l' =>
-    match nth_error nodes i, resolve_list nodes l' with
+    match nthN nodes i, resolve_list nodes l' with
     | Some n, Some r => Some (n :: r)
     | _, _ => None
     end
@@ -26,12 +60,12 @@ Fixpoint resolve_list (nodes : list node) (l : list nat) : option (list node) :=
 
 Definition resolve (nodes : list node) (o : iop) : option op :=
   match o with
-  | IAdd i => option_map OAdd (nth_error nodes i)
+  | IAdd i => option_map OAdd (nthN nodes i)
   | IStuff l => option_map OStuff (resolve_list nodes l)
-  | IDelete i => option_map ODelete (nth_error nodes i)
-  | IDeleteReplace i => option_map ODeleteReplace (nth_error nodes i)
-  | IBump i => option_map OBump (nth_error nodes i)
-  | IDelRepl i => option_map ODelRepl (nth_error nodes i)
+  | IDelete i => option_map ODelete (nthN nodes i)
+  | IDeleteReplace i => option_map ODeleteReplace (nthN nodes i)
+  | IBump i => option_map OBump (nthN nodes i)
+  | IDelRepl i => option_map ODelRepl (nthN nodes i)
   end.
 
 Fixpoint resolve_all (nodes : list node) (ops : list iop) : option (list op) :=
@@ -44,9 +78,21 @@ Fixpoint resolve_all (nodes : list node) (ops : list iop) : option (list op) :=
     end
   end.
 
-(* projection: recorded count; the non-empty buckets as (index, entry ids in
-   order, replacement ids in order); per operation the contested node id
-   (add) or the flag (bump, as 1/0) *)
+Fixpoint mknodes (groups : list (list (list N))) (specs : list (N * N * N)) : option (list node) :=
+  match specs with
+  | [] => Some []
+  | (lbl, g, j) :: specs' =>
+    match nthN groups g with
+    | Some grp =>
+      match nthN grp j, mknodes groups specs' with
+      | Some h, Some r => Some (mkNode lbl h :: r)
+      | _, _ => None
+      end
+    | None => None
+    end
+  end.
+
+(* ---- projection ------------------------------------------------------------- *)
 Definition dump_obs (r : obs) : option N :=
   match r with
   | ONone => None
@@ -55,17 +101,17 @@ Definition dump_obs (r : obs) : option N :=
   | OFlag false => Some 0%N
   end.
 
-Fixpoint dump_buckets (i : nat) (l : list bucket) : list (nat * (list N * list N)) :=
+Fixpoint dump_buckets (i : N) (l : list bucket) : list (N * (list N * list N)) :=
   match l with
   | [] => []
   | b :: l' =>
     match entries b, replacements b with
-    | [], [] => dump_buckets (S i) l'
-    | _, _ => (i, (map nid (entries b), map nid (replacements b))) :: dump_buckets (S i) l'
+    | [], [] => dump_buckets (N.succ i) l'
+    | _, _ => (i, (map nid (entries b), map nid (replacements b))) :: dump_buckets (N.succ i) l'
     end
   end.
 
-Definition cres := option (Z * (list (nat * (list N * list N)) * list (option N))).
+Definition cres := option (Z * (list (N * (list N * list N)) * list (option N))).
 
 Definition run_case (s : node) (nodes : list node) (ops : list iop) : cres :=
   match resolve_all nodes ops with
@@ -77,15 +123,17 @@ Definition run_case (s : node) (nodes : list node) (ops : list iop) : cres :=
     end
   end.
 
+Definition run_case_pool (p : pool) (k : N) (specs : list (N * N * N)) (ops : list iop) : cres :=
+  match nthN p k with
+  | Some groups =>
+    match mknodes groups [(0, 0, 0)%N], mknodes groups specs with
+    | Some [s], Some nodes => run_case s nodes ops
+    | _, _ => None
+    end
+  | None => None
+  end.
+
 Definition cres_eqb : cres -> cres -> bool :=
   option_eqb (pair_eqb Z.eqb
-    (pair_eqb (list_eqb (pair_eqb Nat.eqb (pair_eqb (list_eqb N.eqb) (list_eqb N.eqb))))
+    (pair_eqb (list_eqb (pair_eqb N.eqb (pair_eqb (list_eqb N.eqb) (list_eqb N.eqb))))
               (list_eqb (option_eqb N.eqb)))).
-
-(* shorthand used by the case files: 32 hash bytes given as one number *)
-Fixpoint be_bytes (k : nat) (x : N) (acc : list N) : list N :=
-  match k with
-  | O => acc
-  | S k' => be_bytes k' (N.div x 256) (N.modulo x 256 :: acc)
-  end.
-Definition nd (id sha : N) : node := mkNode id (be_bytes 32 sha []).
